@@ -166,16 +166,20 @@ fn read_file(p: &Path) -> Option<Content> {
     Some(keys().fold(t.entries()))
 }
 
-/// `-` no other file next to the dictionary; `p` one that does not load; `c=<entries>` one that does
-fn tmp_state(path: &Path) -> String {
+/// `-` no other file next to the dictionary; `p` one that does not load; `c=<entries>` one that does.
+/// `unspecified`: the writer is between `File::create` and `BufWriter::flush` (progress point
+/// `build.written`): what the temp file holds is not determined (nothing yet for a small
+/// dictionary, everything for one larger than the buffer) — reported as `p` like the model's
+/// `partial_`, whatever it happens to hold.
+fn tmp_state(path: &Path, unspecified: bool) -> String {
     let dir = path.parent().unwrap();
     let mut out = vec![];
     if let Ok(rd) = std::fs::read_dir(dir) {
         for e in rd.flatten() {
             if e.path() != path {
                 out.push(match read_file(&e.path()) {
-                    Some(c) => format!("c={}", fmt_content(&c)),
-                    None => "p".to_string(),
+                    Some(c) if !unspecified => format!("c={}", fmt_content(&c)),
+                    _ => "p".to_string(),
                 });
             }
         }
@@ -428,7 +432,7 @@ impl Exec {
 
     // ---- observation
     fn tmp_state(&self) -> String {
-        tmp_state(&self.path)
+        tmp_state(&self.path, self.parked(WRITER) == Some("build.written"))
     }
     fn file_state(&self) -> String {
         file_state(&self.path)
@@ -452,7 +456,12 @@ impl Exec {
             }
             let mut gr: Vec<u32> = st.graveyard.iter().map(|(s, p)| keys().ix(s, p)).collect();
             gr.sort();
-            let gr = if gr.is_empty() { "e".to_string() } else { gr.iter().map(|k| k.to_string()).collect::<Vec<_>>().join("+") };
+            let mut grs: Vec<String> = gr.iter().filter(|k| **k < BIG_BASE).map(|k| k.to_string()).collect();
+            let nbig = gr.iter().filter(|k| **k >= BIG_BASE).count();
+            if nbig > 0 {
+                grs.push(format!("#{}", nbig));
+            }
+            let gr = if grs.is_empty() { "e".to_string() } else { grs.join("+") };
             self.last_live = fmt_content(&keys().fold(d.entries()));
             format!("{}:{}{}:{}:{}:{}:{}:{}", ret, st.dirty as u8, h, fmt_content(&base), fmt_content(&pend), gr, f, t)
         } else {
@@ -788,8 +797,20 @@ impl Gen {
 
 // ------------------------------------------------------------------------------------------ main
 
+/// scratch directory: the bulk enumeration runs on tmpfs when there is one (`sync_data` is then
+/// free), the witnesses and the crash tier on the default temp dir (a real file system)
+fn scratch(fast: bool) -> tempfile::TempDir {
+    if fast && Path::new("/dev/shm").is_dir() {
+        if let Ok(d) = tempfile::tempdir_in("/dev/shm") {
+            return d;
+        }
+    }
+    tempfile::tempdir().expect("tempdir")
+}
+
 struct Ctx {
     out: Out,
+    fast: bool,
     g: u8,
     j: u8,
     seen: HashSet<String>,
@@ -803,7 +824,7 @@ struct Ctx {
 
 impl Ctx {
     fn exec(&mut self, init: &str, plan: &[P]) {
-        let dir = tempfile::tempdir().expect("tempdir");
+        let dir = scratch(self.fast);
         let mut ex = Exec::new(dir.path(), init, false);
         ex.run(plan);
         ex.cleanup();
@@ -871,7 +892,8 @@ impl Ctx {
         // what the directory holds after the process died
         let path = dir.path().join("chewing.dat");
         let f = file_state(&path);
-        let t = tmp_state(&path);
+        let at_written = obs.split(' ').last().and_then(|o| o.split(':').nth(1)).map(|h| h.ends_with("written")).unwrap_or(false);
+        let t = tmp_state(&path, at_written);
         if f == "!" || f == "?" {
             failures.push(Failure { class: "new".into(), what: format!("atomic: after process death the dictionary file is {}", if f == "!" { "not loadable" } else { "missing" }) });
         } else if f != prev_f {
@@ -906,7 +928,7 @@ fn main() {
     }
     let thorough = tier_is_thorough();
     let mut rng = Rng::new(seed_from_env());
-    let mut cx = Ctx { out: Out::new(), g: probe_revive(), j: 0, seen: HashSet::new(), n_run: 0, n_distinct: 0,
+    let mut cx = Ctx { out: Out::new(), fast: false, g: probe_revive(), j: 0, seen: HashSet::new(), n_run: 0, n_distinct: 0,
         n_timeouts: 0, n_fail: 0, cover: BTreeMap::new(), samples: 0 };
     // probe: does Drop join an in-flight writer first?
     {
@@ -952,27 +974,49 @@ fn main() {
 
     // ---- 2. enumeration
     let alphabet = vec![P::Add(0, 0), P::Add(1, 0), P::Upd(0, 0), P::Upd(1, 0), P::Rem(0), P::Rem(1), P::Flush, P::Sync];
-    let (max_len, advances, budget): (usize, Vec<u32>, usize) = if thorough {
-        (5, vec![0, 1, 2, 3, 4, 5, 6, 7, 8, 9], usize::MAX)
+    let fine: Vec<u32> = (0..=STEPS).collect();
+    let coarse: Vec<u32> = vec![0, 2, 5, 6, 9];
+    let coarser: Vec<u32> = vec![0, 5, 9];
+    let small_alpha = vec![P::Upd(0, 0), P::Rem(0), P::Add(0, 0), P::Flush, P::Sync];
+    // (length, alphabet, writer advances offered in every gap, also from a non-empty file)
+    let levels: Vec<(usize, Vec<P>, Vec<u32>, bool)> = if thorough {
+        vec![
+            (0, alphabet.clone(), fine.clone(), true),
+            (1, alphabet.clone(), fine.clone(), true),
+            (2, alphabet.clone(), fine.clone(), true),
+            (3, alphabet.clone(), fine.clone(), true),
+            (4, alphabet.clone(), coarse.clone(), false),
+            (5, small_alpha.clone(), coarser.clone(), false),
+        ]
     } else {
-        (4, vec![0, 2, 5, 6, 9], usize::MAX)
+        vec![
+            (0, alphabet.clone(), fine.clone(), true),
+            (1, alphabet.clone(), fine.clone(), true),
+            (2, alphabet.clone(), coarse.clone(), true),
+            (3, alphabet.clone(), coarse.clone(), true),
+            (4, alphabet.clone(), coarse.clone(), false),
+        ]
     };
     let mut plans: Vec<(String, Vec<P>)> = vec![];
-    for len in 0..=max_len {
-        let adv = if thorough && len >= 4 { vec![0, 2, 5, 6, 9] } else { advances.clone() };
-        let alpha = if len >= 5 { vec![P::Upd(0, 0), P::Rem(0), P::Add(0, 0), P::Flush, P::Sync] } else { alphabet.clone() };
-        let mut g = Gen { alphabet: alpha, advances: adv, join_first: cx.j == 1, out: vec![], limit: budget };
+    for (len, alpha, adv, both) in levels {
+        let mut g = Gen { alphabet: alpha, advances: adv, join_first: cx.j == 1, out: vec![], limit: usize::MAX };
         g.go(0, len, &mut vec![], Sim { dirty: false, writer: None });
+        cx.out.stat(&format!("plans_len{}", len), g.out.len() * if both { 2 } else { 1 });
         for p in g.out {
-            plans.push(("e".into(), p.clone()));
-            if len <= 3 || thorough {
-                plans.push(("0.7+2.5".into(), p));
+            if both {
+                plans.push(("0.7+2.5".into(), p.clone()));
             }
+            plans.push(("e".into(), p));
         }
     }
     cx.out.stat("plans_enumerated", plans.len());
+    if args.len() >= 2 && args[1] == "--count" {
+        cx.out.flush();
+        return;
+    }
+    cx.fast = true;
     // quick: every plan with at most 2 foreground steps, and a seeded sample of the longer ones
-    let quota = if thorough { usize::MAX } else { 1500 };
+    let quota = if thorough { usize::MAX } else { 5000 };
     let mut chosen = 0usize;
     let total = plans.len();
     for (i, (init, p)) in plans.iter().enumerate() {
@@ -989,6 +1033,7 @@ fn main() {
         }
     }
 
+    cx.fast = false;
     // ---- 3. crash tier: the process dies with the writer parked at each progress point
     let scen: Vec<(&str, Vec<P>, Vec<P>)> = vec![
         ("e", vec![P::Upd(0, 1), P::Flush], vec![]),
